@@ -48,7 +48,7 @@ pub fn info() -> PropInfo {
 
 // ---------------------------------------------------------------- observed side
 
-fn av_of(v: &AttributeValue<Rd<'_>>) -> AV {
+pub(crate) fn av_of(v: &AttributeValue<Rd<'_>>) -> AV {
     match v {
         AttributeValue::Block(b) => AV::Block(b.slice().to_vec()),
         AttributeValue::Data1(x) => AV::Data1(*x),
@@ -68,11 +68,11 @@ fn av_of(v: &AttributeValue<Rd<'_>>) -> AV {
     }
 }
 
-fn file_of(f: &gimli::FileEntry<Rd<'_>>) -> FileM {
+pub(crate) fn file_of(f: &gimli::FileEntry<Rd<'_>>) -> FileM {
     FileM { path: av_of(&f.path_name()), dir: f.directory_index(), mtime: f.timestamp(), size: f.size(), md5: *f.md5(), source: f.source().map(|s| av_of(&s)) }
 }
 
-fn row_of(r: &gimli::LineRow) -> Row {
+pub(crate) fn row_of(r: &gimli::LineRow) -> Row {
     Row {
         address: r.address(),
         op_index: r.op_index(),
@@ -672,7 +672,7 @@ fn prefix(r: &mut Rng, h: &Hdr, k: u64) -> (Vec<Ins>, Machine) {
 }
 
 fn probe(ctx: &mut Ctx) {
-    let nh = ctx.size(128, 1600, 8);
+    let nh = ctx.size(384, 3200, 8);
     for hi in 0..nh {
         for pk in 0..NPRE {
             let idx = hi * NPRE + pk;
@@ -725,7 +725,7 @@ fn probe(ctx: &mut Ctx) {
 }
 
 fn progs(ctx: &mut Ctx) {
-    let n = ctx.size(24_000, 400_000, 10);
+    let n = ctx.size(80_000, 800_000, 10);
     for i in 0..n {
         if !ctx.want("prog", i) {
             continue;
@@ -766,7 +766,7 @@ fn progs(ctx: &mut Ctx) {
 }
 
 fn hdrs(ctx: &mut Ctx) {
-    let n = ctx.size(12_000, 200_000, 10);
+    let n = ctx.size(40_000, 400_000, 10);
     for i in 0..n {
         if !ctx.want("hdr", i) {
             continue;
@@ -889,7 +889,7 @@ fn invariant_case(ctx: &mut Ctx, stream: &str, line: &[u8], offset: usize, enc: 
 }
 
 fn inv_bytes(ctx: &mut Ctx) {
-    let n = ctx.size(30_000, 500_000, 10);
+    let n = ctx.size(80_000, 800_000, 10);
     for i in 0..n {
         if !ctx.want("inv.bytes", i) {
             continue;
@@ -944,7 +944,7 @@ fn inv_bytes(ctx: &mut Ctx) {
 }
 
 fn inv_mut(ctx: &mut Ctx) {
-    let n = ctx.size(30_000, 500_000, 10);
+    let n = ctx.size(80_000, 800_000, 10);
     for i in 0..n {
         if !ctx.want("inv.mut", i) {
             continue;
